@@ -33,7 +33,8 @@ def coq_res(ans):
 
 def _run_one(path):
     try:
-        p = subprocess.run(['coqc', '-Q', COQDIR, '', path], capture_output=True, text=True, timeout=900)
+        p = subprocess.run(['bash', '-c', 'ulimit -s 4000000 2>/dev/null || ulimit -s unlimited 2>/dev/null; exec coqc -Q %s "" %s' % (COQDIR, path)],
+                           capture_output=True, text=True, timeout=900)
     except subprocess.TimeoutExpired:
         return path, None, 'coqc timeout'
     if p.returncode != 0:
